@@ -29,6 +29,7 @@ type PropSpec struct {
 // CWRule: a whole-module scan of the SSA call graph: calls into the listed packages (or of the listed
 // functions) may occur only inside the allowed functions.
 type CWRule struct {
+	Kind       string   `json:"kind"` // "" (calls) | "fanout" | "nomapupdate"
 	Name       string   `json:"name"`
 	ForbidPkgs []string `json:"forbid_pkgs"`
 	ForbidFns  []string `json:"forbid_fns"`
@@ -308,7 +309,16 @@ func cmdCheck(args []string) {
 		for _, rule := range ps.ClosedWorld {
 			n := "closed-world/" + rule.Name
 			sm := &oblSummary{Name: n, Kind: "closed-world", Desc: rule.Desc, Contract: true, Status: "discharged", Solver: "ssa-scan", Instances: 1}
-			if bad := eng.scanCalls(rule); len(bad) > 0 {
+			var bad []string
+			switch rule.Kind {
+			case "fanout":
+				bad = eng.scanFanout()
+			case "nomapupdate":
+				bad = eng.scanMapUpdates(rule.ForbidFns)
+			default:
+				bad = eng.scanCalls(rule)
+			}
+			if len(bad) > 0 {
 				sm.Status = "refuted"
 				sm.Detail = strings.Join(bad, "; ")
 				sm.Model = sm.Detail
